@@ -39,6 +39,12 @@ func constDeletes(fn *ssa.Function) map[string]bool {
 }
 
 func runC02(c *Ctx) {
+	defer func() {
+		c.Rule("C02.12", "a request message for a peer without envelopes is compressed whenever a compression is declared", 1)
+		checkUnenvelopedCompression(c, "C02.12", true)
+	}()
+	// clause shared with C01: the pipeline's decision table (a message is compressed when the peer cannot be told otherwise)
+	defer c.ImportRules("C01", "C01.4")
 	p := c.P
 	// clauses this property shares with others (see DESIGN.md section 6a)
 	defer c.ImportRules("C17", "C17.4")
@@ -328,6 +334,7 @@ func runC02(c *Ctx) {
 	c.Rule("C02.7", "a synthesized request envelope's compressed flag = message was compressed AND server compression present", 1)
 	checkEnvelopeSites(c, "C02.4", "C02.6", "C02.7", true)
 	checkSynthFlagNonEmpty(c, "C02.7", true)
+	checkLengthMeasuredAfterLastEdit(c, "C02.7", true)
 
 	// ---------------------------------------------------------------- C02.8
 	c.Rule("C02.8", "content types: each target protocol writes its own wire format's Content-Type prefix; the request classifier maps each prefix to that protocol", 10)
